@@ -9,3 +9,4 @@ def run_for_property(prop, rep, seed):
         return
     battery_impl.run_for_property(prop, rep, seed)
     battery_impl.run_seeds_for_property(prop, rep)
+    battery_impl.run_refactors_for_property(prop, rep)
